@@ -71,6 +71,7 @@ class Recorder:
     def __init__(self):
         self.lock = threading.Lock()
         self.events = []           # (kind, thread ident, payload)
+        self.initial = {}          # function index -> the initial regions of this call
         self.closed = False        # set when calculate has returned or raised
         self.late = 0
 
@@ -81,44 +82,47 @@ class Recorder:
             self.events.append((kind, threading.get_ident(), payload))
 
 
-class FuncProxy:
-    """Delegates to the real ffunc/xfunc and records the region views handed to
-    each task (fill_func(regions) for ffuncs, fill(coordinates, regions) for xfuncs)."""
+def _arrays_in(args):
+    """The list/tuple of region arrays among the positional arguments of a fill call."""
+    for a in args:
+        if isinstance(a, (list, tuple)) and a and all(isinstance(x, numpy.ndarray) for x in a):
+            return list(a)
+    return None
 
-    def __init__(self, real, rec, index):
-        object.__setattr__(self, "_real", real)
-        object.__setattr__(self, "_rec", rec)
-        object.__setattr__(self, "_index", index)
-        object.__setattr__(self, "_initial", None)
 
-    def __getattr__(self, name):
-        return getattr(self._real, name)
+def FuncProxy(real, rec, index):
+    """An object of a dynamic SUBCLASS of the aggregate's own class that shares the aggregate's state:
+    it is transparent to isinstance checks, attribute access and any extra arguments the cube may pass,
+    and records the region views handed to each task (fill_func(regions) for index-cube functions,
+    fill(coordinates, regions) for array-cube functions)."""
+    cls = real.__class__
 
-    def __setattr__(self, name, value):
-        setattr(self._real, name, value)
+    class Proxy(cls):
+        def get_initial_regions(self, *a, **k):
+            regions = cls.get_initial_regions(self, *a, **k)
+            rec.initial[index] = list(regions)
+            rec.log("initial", (index, len(regions)))
+            return regions
 
-    def __hash__(self):
-        return id(self)
-
-    def __eq__(self, other):
-        return self is other
-
-    def get_initial_regions(self, cube):
-        regions = self._real.get_initial_regions(cube)
-        object.__setattr__(self, "_initial", list(regions))
-        self._rec.log("initial", (self._index, len(regions)))
-        return regions
-
-    def fill_func(self, regions):
-        self._rec.log("handover", (self._index, list(regions)))
-        return self._real.fill_func(regions)
-
-    def fill(self, coordinates, regions):
-        self._rec.log("handover", (self._index, list(regions)))
-        return self._real.fill(coordinates, regions)
-
-    def reduce(self, cube, regions):
-        return self._real.reduce(cube, regions)
+    if hasattr(cls, "fill_func"):
+        def fill_func(self, *a, **k):
+            regions = _arrays_in(a)
+            if regions is not None:
+                rec.log("handover", (index, regions))
+            return cls.fill_func(self, *a, **k)
+        Proxy.fill_func = fill_func
+    if hasattr(cls, "fill"):
+        def fill(self, *a, **k):
+            regions = _arrays_in(a)
+            if regions is not None:
+                rec.log("handover", (index, regions))
+            return cls.fill(self, *a, **k)
+        Proxy.fill = fill
+    Proxy.__name__ = cls.__name__
+    Proxy.__qualname__ = cls.__qualname__
+    p = object.__new__(Proxy)
+    p.__dict__ = real.__dict__
+    return p
 
 
 def check_write_sets(rec, proxies):
@@ -130,15 +134,14 @@ def check_write_sets(rec, proxies):
             per_func.setdefault(payload[0], []).append(payload[1])
     pairs = 0
     for fi, handovers in per_func.items():
-        initial = proxies[fi]._initial
-        if initial is None:
-            return "function %d received regions without get_initial_regions" % fi, pairs
+        initial = rec.initial.get(fi)
         for regions in handovers:
-            if len(regions) != len(initial):
-                return "function %d got %d regions, has %d" % (fi, len(regions), len(initial)), pairs
-            for r, base in zip(regions, initial):
-                if not numpy.shares_memory(r, base):
-                    return "function %d was handed a region that is not a view of this call's initial regions" % fi, pairs
+            # (when the initial regions were seen and correspond one to one: each handed-over view must
+            # be a view of this call's own regions; otherwise only disjointness is judged)
+            if initial is not None and len(regions) == len(initial):
+                for r, base in zip(regions, initial):
+                    if not numpy.shares_memory(r, base):
+                        return "function %d was handed a region that is not a view of this call's initial regions" % fi, pairs
         for a in range(len(handovers)):
             for b in range(a + 1, len(handovers)):
                 for ra, rb in zip(handovers[a], handovers[b]):
